@@ -14,10 +14,15 @@
   * `C08_delivery`: `update_counter` delivers CounterZero to the same machine, immediately, iff
     one of the two updates reported "zeroed", and then allows scheduling only if that delivery
     left the slot empty (an action scheduled by the CounterZero transition takes precedence).
+  * `C08_at_most_twice_per_call`: over a whole call (any batch, any machines, any oracle) a machine
+    is delivered CounterZero at most twice — once per counter — counted on the ghost log
+    (potential argument: deliveries so far + guard flags still unset never grows after the start
+    of the call; `Proofs/CzCount.lean`, on the potential form of the counting lemma).
   The implementation is tied to this by the correspondence on counter values (tag RC), the
   internal log (tag L, with the hook's counter entries) and the monitor `C08.monitor`.
 -/
 import MbVerif.Proofs.SafeCall
+import MbVerif.Proofs.CzCount
 
 namespace Mb.C08
 open Mb
@@ -121,6 +126,12 @@ theorem C08_flags_reset (s : Fw σ) (t : Int) (mi : Nat) :
   unfold zeroedAOf zeroedBOf
   simp only [Fw.callStart, List.getElem?_map]
   cases s.rt[mi]? <;> simp
+
+/-- per call, a machine receives at most two CounterZero events (one per counter): the number of
+    `trans mi CounterZero _` entries the call adds to the ghost log is at most 2 -/
+theorem C08_at_most_twice_per_call (mi : Nat) (es : List TEvent) (t : Int) (s : Fw σ) :
+    czOf mi (triggerEvents ρ es t s) ≤ czOf mi s + 2 :=
+  cz_triggerEvents ρ mi es t s
 
 /-- Non-vacuity: saturation at both ends. -/
 example : applyOp .increment (Fp.u64Max - 1) 5 = Fp.u64Max ∧ applyOp .decrement 3 5 = 0 := by decide
